@@ -21,6 +21,7 @@ import re
 from ..astutil import text, access_path, access_paths_in, calls_in, func_params, stmts_of, is_const, const_value, method_call, store_targets
 from ..loader import where, AnalysisError
 from ..paths import Enumerator, TooManyPaths
+from ..terms import Terms, PathEnv
 from .c11 import sql_of
 
 FIELDS = ("id", "vector", "costs", "costs_signed", "population_id", "custom", "features")
@@ -33,35 +34,51 @@ def r1_fields(ctx, repo):
     if td is None or fd is None:
         raise AnalysisError("Individual.to_dict / from_dict not found")
     selfn = func_params(td)[0]
-    # ---- writer table: key -> last value expression
+    # ---- writer table: key -> value term (temporaries and builder loops looked through)
     writer = {}
     outvar = None
+    TD = Terms(td)
+    retnames = {access_path(r_.value) for r_ in stmts_of(td) if isinstance(r_, ast.Return) and r_.value is not None}
     for s in stmts_of(td):
-        if isinstance(s, ast.Assign) and isinstance(s.value, ast.Dict) and len(s.targets) == 1 and isinstance(s.targets[0], ast.Name):
+        if isinstance(s, ast.Assign) and isinstance(s.value, ast.Dict) and len(s.targets) == 1 and isinstance(s.targets[0], ast.Name) \
+                and s.targets[0].id in retnames:
             outvar = s.targets[0].id
             for k, v in zip(s.value.keys, s.value.values):
                 if isinstance(k, ast.Constant):
-                    writer[k.value] = v
+                    writer[k.value] = TD.expand(v, at=s)
         elif isinstance(s, ast.Assign) and len(s.targets) == 1 and isinstance(s.targets[0], ast.Subscript) \
                 and access_path(s.targets[0].value) == outvar and isinstance(s.targets[0].slice, ast.Constant):
-            writer[s.targets[0].slice.value] = s.value
+            writer[s.targets[0].slice.value] = TD.expand(s.value, at=s)
     rets = [s for s in stmts_of(td) if isinstance(s, ast.Return)]
-    if outvar is None or not rets or access_path(rets[-1].value) != outvar:
+    if outvar is None and len(TD.returns) == 1 and isinstance(TD.returns[0][1], ast.Dict):
+        # return {...} directly
+        outvar = "<returned dict>"
+        for k, v in zip(TD.returns[0][1].keys, TD.returns[0][1].values):
+            if isinstance(k, ast.Constant):
+                writer[k.value] = v
+    elif outvar is None or not rets or access_path(rets[-1].value) != outvar:
         ctx.inconclusive("R1", "Individual.to_dict", where(mod, td), "dictionary construction not recognised")
         return
-    # local definitions (e.g. features = dict(); loop fills it)
-    locals_src = {}
-    for s in stmts_of(td):
-        if isinstance(s, ast.For):
-            for b in stmts_of(s):
-                if isinstance(b, ast.Assign) and len(b.targets) == 1 and isinstance(b.targets[0], ast.Subscript):
-                    nm = access_path(b.targets[0].value)
-                    locals_src.setdefault(nm, set()).update(access_paths_in(s.iter))
-                    locals_src[nm].add(("value", text(b.value)))
-                for c in calls_in(b):
-                    mc = method_call(c)
-                    if mc and mc[1] == "append" and isinstance(mc[0], ast.Name):
-                        locals_src.setdefault(mc[0].id, set()).update(access_paths_in(s.iter))
+
+    def data_paths(e):
+        """paths of self the value is computed from (receivers of method calls, not the methods)"""
+        out = set()
+
+        def rec(n):
+            if isinstance(n, ast.Call) and isinstance(n.func, ast.Attribute):
+                if access_path(n.func.value) != selfn:
+                    rec(n.func.value)
+                for a in list(n.args) + [k.value for k in n.keywords]:
+                    rec(a)
+                return
+            p_ = access_path(n)
+            if p_ is not None and isinstance(n, (ast.Attribute, ast.Subscript, ast.Name)):
+                out.add(p_)
+                return
+            for c_ in ast.iter_child_nodes(n):
+                rec(c_)
+        rec(e)
+        return out
     # ---- reader table: attr -> key
     reader = {}
     ivar = None
@@ -82,11 +99,16 @@ def r1_fields(ctx, repo):
         if w is None:
             problems.append("to_dict does not write key '%s'" % f)
         else:
-            src = access_paths_in(w)
+            src = data_paths(w)
             own = {p for p in src if p.startswith(selfn + ".")}
-            if isinstance(w, ast.Name) and w.id in locals_src:
-                own = {p for p in locals_src[w.id] if isinstance(p, str) and p.startswith(selfn + ".")}
+            if isinstance(w, ast.Name):
+                # a local the analysis could not look through
+                problems = None
             want = selfn + "." + f
+            if problems is None:
+                table[f] = {"written_from": text(w)}
+                ctx.inconclusive("R1", C, where(mod, td), "the value written under key '%s' (%s) is not resolved" % (f, text(w)))
+                continue
             base_own = {p.split("[")[0] for p in own}
             sliced = [n for n in ast.walk(w) if isinstance(n, ast.Subscript) and access_path(n.value) == want]
             if want not in base_own and not any(p.startswith(want + ".") for p in base_own):
@@ -100,7 +122,9 @@ def r1_fields(ctx, repo):
         elif r[0] != f:
             problems.append("from_dict restores attribute '%s' from key '%s'" % (f, r[0]))
         table[f] = {"written_from": text(w) if w is not None else None, "read_from_key": r[0] if r else None}
-        if problems:
+        if problems is None:
+            ctx.inconclusive("R1", C, where(mod, td), "the value written under key '%s' (%s) is not resolved" % (f, text(w)))
+        elif problems:
             ctx.violated("R1", C, where(mod, (r[1] if r else td)), "; ".join(problems))
         else:
             ctx.holds("R1", C, where(mod, td), "written from self.%s under key '%s', restored to .%s" % (f, f, f))
@@ -203,13 +227,16 @@ def r2_sql(ctx, repo, cls):
         if fn is None:
             raise AnalysisError("SqliteDataStore.%s not found" % name)
         ex = [c for c in calls_in(fn) if isinstance(c.func, ast.Attribute) and c.func.attr in ("execute", "executemany")]
+        TF = Terms(fn)
+        stmt_of = {id(c_): st_ for st_ in stmts_of(fn) if not isinstance(st_, (ast.For, ast.While, ast.If, ast.Try, ast.With)) for c_ in calls_in(st_)}
         verdict, detail = None, "no execute of the upsert found"
         for c in ex:
             if not (c.args and access_path(c.args[0]) and access_path(c.args[0]).endswith("." + upsert[0]) and len(c.args) == 2):
                 continue
             if c.func.attr == "execute":
-                if isinstance(c.args[1], (ast.List, ast.Tuple)) and len(c.args[1].elts) == 2:
-                    a, b = c.args[1].elts
+                bound = TF.expand(c.args[1], at=stmt_of.get(id(c)), elems=False) if stmt_of.get(id(c)) is not None else c.args[1]
+                if isinstance(bound, (ast.List, ast.Tuple)) and len(bound.elts) == 2:
+                    a, b = bound.elts
                     if pair_ok(a, b):
                         verdict = True
                     else:
